@@ -59,6 +59,7 @@ type HBConn struct {
 
 	mu      sync.Mutex
 	target  string
+	orphan  bool // the client side went away without the server noticing (Close is not propagated)
 	ended   bool
 	endErr  string
 	toCli   []string // responses delivered to the client side (tap)
@@ -159,7 +160,14 @@ func (hb *HB) newConn(ctx context.Context, id *keys.Identity, name string, raw b
 	conn.C.OnSend = func(s *CStream, req *signaling_rpc.SessionRequest) error {
 		return hb.crossReq(conn, req)
 	}
-	conn.C.OnClose = func(s *CStream) { conn.S.Kill(context.Canceled) }
+	conn.C.OnClose = func(s *CStream) {
+		conn.mu.Lock()
+		orphan := conn.orphan
+		conn.mu.Unlock()
+		if !orphan {
+			conn.S.Kill(context.Canceled)
+		}
+	}
 	hb.conns = append(hb.conns, conn)
 	hb.mu.Unlock()
 	go func() {
@@ -180,10 +188,51 @@ func (hb *HB) newConn(ctx context.Context, id *keys.Identity, name string, raw b
 	return conn
 }
 
+// Orphan marks every live (non-raw) call of owner as orphaned: when the owning
+// client goes away (its context ends, it closes its streams) the proxy does NOT
+// tell the server - the connection of a process that died without the relay
+// noticing. The server keeps the call registered until somebody usurps it.
+// Returns the number of calls orphaned.
+func (hb *HB) Orphan(owner string) int {
+	n := 0
+	for _, c := range hb.Conns() {
+		if c.Raw || c.Owner != owner {
+			continue
+		}
+		if ended, _ := c.Ended(); ended {
+			continue
+		}
+		c.mu.Lock()
+		c.orphan = true
+		c.mu.Unlock()
+		n++
+	}
+	return n
+}
+
+// ReleaseWrites opens the write gates of every stream of owner ("" = all).
+// Returns the number of writers that were parked.
+func (hb *HB) ReleaseWrites(owner string) int {
+	n := 0
+	for _, c := range hb.Conns() {
+		if owner == "" || c.Owner == owner {
+			n += c.C.ReleaseWrites()
+		}
+	}
+	return n
+}
+
 // Kill resets a stream in both directions.
 func (hb *HB) Kill(c *HBConn) {
 	c.S.Kill(ErrKilled)
 	c.C.Kill(ErrKilled)
+}
+
+// EndConn ends a call: the server side sees its stream fail, the client side
+// sees the end in the given shape (the link closed cleanly / with an error / ...).
+func (hb *HB) EndConn(c *HBConn, sh EndShape) {
+	c.S.Kill(ErrKilled)
+	c.C.End(sh)
 }
 
 func reqKind(req *signaling_rpc.SessionRequest) string { return Classify(0, req).Kind }
